@@ -64,6 +64,9 @@ class Agent(object):
         self.w = os.fdopen(p_w, 'wb', buffering=0)
         self.r = os.fdopen(p_r, 'rb')
         self.pages = pages
+        self.edge_mode = 0       # 0 = off; k > 0: deterministic choice of the relocated object per call (see _call_edge)
+        self.edge_calls = 0
+        self.edge_moved = 0
 
     def _send(self, line):
         try:
@@ -110,10 +113,72 @@ class Agent(object):
         return int(self._send('now %d' % clock).split()[1])
 
     def call(self, fn, unstable, *args):
+        if self.edge_mode and fn in EDGE_SPEC:
+            return self._call_edge(fn, unstable, list(args))
+        return self._call(fn, unstable, *args)
+
+    def _call(self, fn, unstable, *args):
         r = self._send('call %s %d %s' % (fn, 1 if unstable else 0, ' '.join(str(int(a)) for a in args)))
         if not r.startswith('ret '):
             raise AgentDied('agent protocol error: %r' % r)
         return int(r[4:])
+
+    # ---- edge placement: one guest object of the call is moved so that it ENDS EXACTLY AT THE END OF GUEST MEMORY
+    # (contents copied there before and copied back afterwards), which is as much in bounds as any other placement; an
+    # off-by-one in a bounds check, or a write past the object, becomes visible (errno FAULT / ASan report in the agent)
+    def _call_edge(self, fn, unstable, args):
+        memsize = self.pages * 65536
+        cands = []
+        for spec in EDGE_SPEC[fn]:
+            kind = spec[0]
+            if kind == 'obj':
+                _, ai, ln, direction = spec
+                ln = ln(args, unstable) if callable(ln) else ln
+                if 0 < ln <= 65536 and args[ai] + ln <= memsize - 0x20000:
+                    cands.append(('obj', ai, ln, direction))
+            elif kind == 'iov':
+                _, ai, ci, direction = spec
+                n = args[ci]
+                if 0 < n <= 64:
+                    raw = self.peek(args[ai], 8 * n)
+                    ents = [struct.unpack('<II', raw[8 * i:8 * i + 8]) for i in range(n)]
+                    for i in range(n - 1, -1, -1):
+                        if 0 < ents[i][1] <= 65536 and ents[i][0] + ents[i][1] <= memsize - 0x20000:
+                            cands.append(('iovbuf', ai, i, ents[i], direction))
+                            break
+        self.edge_calls += 1
+        k = (self.edge_mode + self.edge_calls) % (len(cands) + 1)
+        if k >= len(cands):
+            return self._call(fn, unstable, *args)
+        c = cands[k]
+        self.edge_moved += 1
+        if c[0] == 'obj':
+            _, ai, ln, direction = c
+            low, top = args[ai], memsize - ln
+            if 'i' in direction:
+                self.poke(top, self.peek(low, ln))
+            else:
+                self.fill(top, ln)
+            args2 = list(args)
+            args2[ai] = top
+            r = self._call(fn, unstable, *args2)
+            if 'o' in direction:
+                self.poke(low, self.peek(top, ln))
+            return r
+        _, ai, i, (bptr, blen), direction = c
+        top = memsize - blen
+        if 'i' in direction:
+            self.poke(top, self.peek(bptr, blen))
+        else:
+            self.fill(top, blen)
+        self.poke(args[ai] + 8 * i, struct.pack('<I', top))
+        try:
+            r = self._call(fn, unstable, *args)
+        finally:
+            self.poke(args[ai] + 8 * i, struct.pack('<I', bptr))
+        if 'o' in direction:
+            self.poke(bptr, self.peek(top, blen))
+        return r
 
     def call_noreturn(self, fn, unstable, *args):
         """for proc_exit: returns the exit status of the agent"""
@@ -153,6 +218,35 @@ class Agent(object):
         if 'Sanitizer' in t or 'runtime error' in t:
             return t[-4000:]
         return ''
+
+
+def _statlen(args, unstable):
+    return 56 if unstable else 64
+
+
+# per function: relocatable guest objects. ('obj', pointer argument index, length or f(args, unstable), 'i' input / 'o' output)
+# and ('iov', iovec-array argument index, count argument index, direction of the data buffers)
+EDGE_SPEC = {
+    'fd_write': [('obj', 1, lambda a, u: 8 * a[2], 'i'), ('obj', 3, 4, 'o'), ('iov', 1, 2, 'i')],
+    'fd_pwrite': [('obj', 1, lambda a, u: 8 * a[2], 'i'), ('obj', 4, 4, 'o'), ('iov', 1, 2, 'i')],
+    'fd_read': [('obj', 1, lambda a, u: 8 * a[2], 'i'), ('obj', 3, 4, 'o'), ('iov', 1, 2, 'o')],
+    'fd_pread': [('obj', 1, lambda a, u: 8 * a[2], 'i'), ('obj', 4, 4, 'o'), ('iov', 1, 2, 'o')],
+    'fd_seek': [('obj', 3, 8, 'o')],
+    'fd_tell': [('obj', 1, 8, 'o')],
+    'path_open': [('obj', 2, lambda a, u: a[3], 'i'), ('obj', 8, 4, 'o')],
+    'fd_filestat_get': [('obj', 1, _statlen, 'o')],
+    'path_filestat_get': [('obj', 2, lambda a, u: a[3], 'i'), ('obj', 4, _statlen, 'o')],
+    'fd_fdstat_get': [('obj', 1, 24, 'o')],
+    'fd_prestat_get': [('obj', 1, 8, 'o')],
+    'fd_prestat_dir_name': [('obj', 1, lambda a, u: a[2], 'o')],
+    'fd_readdir': [('obj', 1, lambda a, u: a[2], 'o'), ('obj', 4, 4, 'o')],
+    'path_create_directory': [('obj', 1, lambda a, u: a[2], 'i')],
+    'path_remove_directory': [('obj', 1, lambda a, u: a[2], 'i')],
+    'path_unlink_file': [('obj', 1, lambda a, u: a[2], 'i')],
+    'path_rename': [('obj', 1, lambda a, u: a[2], 'i'), ('obj', 4, lambda a, u: a[5], 'i')],
+    'path_symlink': [('obj', 0, lambda a, u: a[1], 'i'), ('obj', 3, lambda a, u: a[4], 'i')],
+    'path_readlink': [('obj', 1, lambda a, u: a[2], 'i'), ('obj', 3, lambda a, u: a[4], 'o'), ('obj', 5, 4, 'o')],
+}
 
 
 class Violation(Exception):
